@@ -394,7 +394,7 @@ fn rand_char(rng: &mut StdRng) -> char {
 }
 
 const OPS: &[&str] = &[
-    "byte_insert", "byte_delete", "byte_replace", "char_insert", "char_delete", "char_swap", "range_delete", "range_dup", "truncate", "tok_delete", "tok_dup", "tok_swap_adjacent", "tok_swap_random", "tok_replace", "tok_insert", "tok_range_delete", "tok_shuffle", "splice_file", "delim_delete", "delim_insert", "delim_change", "delim_burst", "unicode_inject", "ws_perturb", "comment_insert", "comment_damage", "literal_mangle", "string_escape", "line_delete", "line_dup", "line_swap", "keyword_swap", "skeleton_insert",
+    "byte_insert", "byte_delete", "byte_replace", "char_insert", "char_delete", "char_swap", "range_delete", "range_dup", "truncate", "tok_delete", "tok_dup", "tok_swap_adjacent", "tok_swap_random", "tok_replace", "tok_insert", "tok_range_delete", "tok_shuffle", "splice_file", "delim_delete", "delim_insert", "delim_change", "delim_burst", "unicode_inject", "ws_perturb", "comment_insert", "comment_damage", "literal_mangle", "string_escape", "line_delete", "line_dup", "line_swap", "keyword_swap", "skeleton_insert", "unicode_word_start",
 ];
 
 /// Applies one mutation; `other` is a second corpus file for splicing. Returns the operator name.
@@ -636,6 +636,39 @@ fn mutate_once(rng: &mut StdRng, s: &mut String, other: &str) -> &'static str {
             let n = if rng.gen_bool(0.85) { 1 } else { rng.gen_range(2..=5) };
             for _ in 0..n {
                 s.insert(at, c);
+            }
+        }
+        "unicode_word_start" => {
+            // the FIRST character of a word becomes / is preceded by a multi-byte letter that may
+            // start an identifier; words inside asm blocks (register names, immediates such as
+            // `i16`, opcodes) and number-like words are preferred - code that inspects the first
+            // byte(s) of a token's text meets a character boundary there
+            const LETTERS: &[char] = &['é', 'ß', 'λ', 'Ω', '中', 'ǅ', '𝔘', 'ﬁ'];
+            let words: Vec<(usize, &Tok)> = toks.iter().enumerate().filter(|(_, t)| t.k == K::Word).collect();
+            if !words.is_empty() {
+                let mut in_asm: Vec<&Tok> = vec![];
+                for (i, t) in &words {
+                    if &s[t.s..t.e] == "asm" {
+                        in_asm.extend(toks[*i + 1..(*i + 160).min(toks.len())].iter().filter(|x| x.k == K::Word));
+                    }
+                }
+                let immediates: Vec<&Tok> = in_asm.iter().copied().filter(|t| s[t.s..t.e].starts_with('i') && s[t.s + 1..t.e].chars().all(|c| c.is_ascii_digit()) && t.e - t.s >= 2).collect();
+                let t: &Tok = if !immediates.is_empty() && rng.gen_bool(0.5) {
+                    immediates[rng.gen_range(0..immediates.len())]
+                } else if !in_asm.is_empty() && rng.gen_bool(0.6) {
+                    in_asm[rng.gen_range(0..in_asm.len())]
+                } else {
+                    words[rng.gen_range(0..words.len())].1
+                };
+                let c = LETTERS[rng.gen_range(0..LETTERS.len())];
+                let (a, b) = (t.s, t.e);
+                if rng.gen_bool(0.5) || b - a < 2 {
+                    s.insert(a, c);
+                } else {
+                    // replace the first character
+                    let first_len = s[a..b].chars().next().map(|ch| ch.len_utf8()).unwrap_or(1);
+                    s.replace_range(a..a + first_len, &c.to_string());
+                }
             }
         }
         "ws_perturb" => {
